@@ -223,6 +223,46 @@ def register(gen, T):
         out.append(f"/-- error when the stack is not empty at the end of the initial file -/\n"
                    f"def unfinishedErr : ChainErr := .{m.group(1)}\n\n")
 
+        # ---------------------------------------------------------------- shapes the composed model (Model.CondFile) mirrors
+        m = re.search(r'const MAX_INCLUDE_DEPTH: u32 = (\d+);', pre)
+        inc_arm = normws(arm_of("include"))
+        if not m or "file_loader.include_depth >= MAX_INCLUDE_DEPTH" not in inc_arm:
+            raise ExtractError("#include: MAX_INCLUDE_DEPTH check not found")
+        out.append(f"/-- `const MAX_INCLUDE_DEPTH`: `#include` is refused when `include_depth >=` this -/\n"
+                   f"def maxIncludeDepth : Nat := {m.group(1)}\n\n")
+        # one ConditionChain for all files: the include arm hands `condition_chain` itself to
+        # preprocess_included_file, which neither records the depth at entry nor checks it at the end
+        pinc = normws(fn_body(pre, "preprocess_included_file"))
+        shared = ("preprocess_included_file( buffer, file_loader, file, macros, condition_chain, )" in inc_arm
+                  or "preprocess_included_file(buffer, file_loader, file, macros, condition_chain)" in inc_arm)
+        if not shared:
+            raise ExtractError("#include does not pass the includer's condition_chain to preprocess_included_file")
+        if "condition_chain.0" in pinc or "ConditionChainNotFinished" in pinc:
+            raise ExtractError("preprocess_included_file inspects the condition chain (per-file check?)")
+        out.append("/-- `#include` processes the file with the includer's own `ConditionChain`; the included file's\n"
+                   "    end is not checked -/\ndef chainSharedByIncludes : Bool := true\n\n")
+        fsm = normws(fn_body(pre, "find_single_macro"))
+        k_def = fsm.find('if i >= search_pos.next_pos && apply_defined && id.0 == "defined" { return Ok(FoundMacro::Defined(i)); }')
+        k_loop = fsm.find("for macro_index in 0..macros.len()")
+        if k_def < 0 or k_loop < 0 or k_def > k_loop:
+            raise ExtractError("find_single_macro: the `defined` test is not in front of the macro loop")
+        out.append("/-- `find_single_macro`: at positions `>= next_pos` (and only with `apply_defined`) the identifier\n"
+                   "    `defined` is recognised before any macro is looked up -/\ndef definedTestFirst : Bool := true\n\n")
+        asm = normws(fn_body(pre, "apply_single_macro"))
+        calls = [c for c in re.findall(r'apply_macros_internal\(([^()]*(?:\([^()]*\)[^()]*)*)\)', asm)]
+        if len(calls) != 2 or not all(re.search(r',\s*false,\s*source_manager,?\s*$', c) for c in calls):
+            raise ExtractError("apply_single_macro: the recursive expansions do not pass apply_defined = false")
+        out.append("/-- arguments and substituted bodies are expanded with `apply_defined = false` -/\n"
+                   "def innerCallsWithoutDefined : Bool := true\n\n")
+        fl = normws(fn_body(pre, "preprocess_included_file"))
+        if "apply_macros(input_tokens, macros, false, file_loader.source_manager)" not in fl:
+            raise ExtractError("flush_normal does not call apply_macros(.., false, ..)")
+        cmd = normws(fn_body(pre, "preprocess_command"))
+        if cmd.count("apply_macros(command, macros, true, file_loader.source_manager)") != 2:
+            raise ExtractError("#if/#elif do not call apply_macros(.., true, ..)")
+        out.append("/-- text goes through `apply_macros(.., false, ..)`, `#if/#elif` through `apply_macros(.., true, ..)` -/\n"
+                   "def definedOnlyInConditions : Bool := true\n\n")
+
         # ---------------------------------------------------------------- condition_parser.rs
         ops = [v for v, _ in enum_variants(cp, "BinOp")]
         out.append("/-- `enum BinOp` of condition_parser.rs -/\ninductive BinOp where\n" +
